@@ -1,6 +1,7 @@
 package main
 
 import (
+	"fmt"
 	"sort"
 	"strings"
 
@@ -99,6 +100,38 @@ func buildForms(env *zygo.Zlisp, tier string) (*listStream, map[string]string) {
 				for _, c := range pool10 {
 					s.add("("+h+" "+a+" "+b+" "+c+")", "", tag)
 				}
+			}
+		}
+	}
+	// the same forms as an ARGUMENT of a call / element of an array (their value is consumed)
+	for _, h := range heads {
+		tag := "forms:nested"
+		s.add("(list ("+h+"))", "", tag)
+		for _, a := range poolWide {
+			s.add("(list ("+h+" "+a+"))", "", tag)
+			s.add("[("+h+" "+a+")]", "", tag)
+		}
+		for _, a := range pool10 {
+			for _, b := range pool10 {
+				s.add("(+ 1 ("+h+" "+a+" "+b+"))", "", tag)
+			}
+		}
+		for _, a := range poolWide[10:32] {
+			s.add("(+ 1 ("+h+" "+a+" 1))", "", tag)
+		}
+	}
+	// value-less forms consumed as a value, with symbols no other input binds (a reused interpreter
+	// that already binds the symbol takes another path)
+	uniq := 0
+	for _, h := range []string{"def", "set", "mdef", "defn", "defmac", "for", "newScope", "begin", "package", "return", "break", "assert", "let"} {
+		for _, lhs := range []string{"(quote u%d)", "%%u%d", "u%d", "(quote u%d) 2", "%%u%d 2", "u%d 2", "[u%d] 2", "u%d [] 2", "[(def u%d 0) false 1]", "[u%d 1] u%d"} {
+			for _, wrap := range []string{"(+ 1 %s)", "(list %s)", "[%s]", "(str %s)", "(cond true %s 2)", "(def w%d %s)", "(and %s 1)", "((fn [x] x) %s)"} {
+				uniq++
+				l := strings.ReplaceAll(lhs, "%d", fmt.Sprintf("%d", uniq))
+				l = strings.ReplaceAll(l, "%%", "%")
+				inner := "(" + h + " " + l + ")"
+				w := strings.Replace(wrap, "%d", fmt.Sprintf("%d", uniq), 1)
+				s.add(strings.Replace(w, "%s", inner, 1), "", "forms:consumed")
 			}
 		}
 	}
